@@ -4,7 +4,7 @@
    `lspec_*` part of ListModel.v; proofs: Proofs/BufferProofs.v, Proofs/ListProofs.v. *)
 From Coq Require Import List NArith.
 From Wbxml Require Import Model.Codec Model.BufferModel Model.BufferSpec Model.ListModel
-  Proofs.BufferProofs Proofs.ListProofs.
+  Proofs.BufferProofs Proofs.BufferSearchProofs Proofs.ListProofs.
 Import ListNotations.
 
 (* (a) the invariant: no store outside the allocated cells ever happened; a static buffer's len is
@@ -23,21 +23,22 @@ Print Assumptions C19_terminator.
 
 (* (a)+(b) one operation: contents, static mark and returned value are those of the plain byte string
    (spec_step), and the invariant is preserved.  PARTIAL: proved for every operation except
-   split_words, search and search_cstr (proved_op = false for those three; they are tied to the
-   specification by the correspondence check and the python oracle only).
+   split_words (proved_op_s = false for it only; its result is tied to words_spec by the
+   correspondence check and the python oracle only; that it leaves the buffer unchanged is
+   C19_static_refuses' read-only clause for static buffers and split_words_readonly in general).
    op_ok = the documented contract: delete ranges inside the contents, sizes below 2^32. *)
-Theorem C19_step_refines_partial : forall b o, Inv b -> op_ok (abs b) o = true -> proved_op o = true ->
+Theorem C19_step_refines_partial : forall b o, Inv b -> op_ok (abs b) o = true -> proved_op_s o = true ->
   abs (fst (step b o)) = fst (spec_step (abs b) o) /\
   snd (step b o) = snd (spec_step (abs b) o) /\
   Inv (fst (step b o)).
-Proof. exact step_refines. Qed.
+Proof. exact step_refines_s. Qed.
 Print Assumptions C19_step_refines_partial.
 
 (* ... lifted to all finite operation sequences (fold over `run`): after every operation *)
-Theorem C19_run_refines_partial : forall ops b, Inv b -> ops_ok (abs b) ops = true -> forallb proved_op ops = true ->
+Theorem C19_run_refines_partial : forall ops b, Inv b -> ops_ok (abs b) ops = true -> forallb proved_op_s ops = true ->
   map (fun x => (abs (fst x), snd x)) (run b ops) = spec_run (abs b) ops /\
   Forall (fun x => Inv (fst x)) (run b ops).
-Proof. exact run_refines. Qed.
+Proof. exact run_refines_s. Qed.
 Print Assumptions C19_run_refines_partial.
 
 (* (d) a static buffer refuses every mutation: state unchanged, FALSE (void for no_spaces) *)
@@ -92,14 +93,15 @@ Proof. split; [reflexivity | split; [reflexivity | apply Inv_create; reflexivity
 
 Example C19_ex_sequence :
   let ops := [OAppendCstr [32; 32; 97; 9; 10; 98; 32; 0; 99]; OShrink; OStrip; OInsert [120; 121] 1; ODelete 0 1;
-              OSetChar 9 1; OBinToHex true; OHexToBin; OAppendMb 300; ORemoveTrailingZeros; OEncodeB64; ODecodeB64]%N in
-  ops_ok (abs (create [] 0%N)) ops = true /\ forallb proved_op ops = true /\
+              OSetChar 9 1; OBinToHex true; OHexToBin; OAppendMb 300; ORemoveTrailingZeros; OEncodeB64; ODecodeB64; OSearch [32; 98] 1]%N in
+  ops_ok (abs (create [] 0%N)) ops = true /\ forallb proved_op_s ops = true /\
   map (fun x => (contents (fst x), snd x)) (run (create [] 0%N) ops) =
     [([32; 32; 97; 9; 10; 98; 32], RBool true); ([32; 97; 32; 98; 32], RBool true); ([97; 32; 98], RBool true);
      ([97; 120; 121; 32; 98], RBool true); ([120; 121; 32; 98], RBool true); ([120; 121; 32; 98], RBool false);
      ([55; 56; 55; 57; 50; 48; 54; 50], RBool true); ([120; 121; 32; 98], RBool true);
      ([120; 121; 32; 98; 130; 44], RBool true); ([120; 121; 32; 98; 130; 44], RBool true);
-     ([101; 72; 107; 103; 89; 111; 73; 115], RBool true); ([120; 121; 32; 98; 130; 44], RBool true)]%N.
+     ([101; 72; 107; 103; 89; 111; 73; 115], RBool true); ([120; 121; 32; 98; 130; 44], RBool true);
+     ([120; 121; 32; 98; 130; 44], RVal (Some 2))]%N.
 Proof. vm_compute. repeat split. Qed.
 
 Example C19_ex_static : fst (step (sta_create [1; 2]%N) (OAppendChar 3%N)) = sta_create [1; 2]%N.
